@@ -11,8 +11,10 @@ package common
 //@ spec NilIfEmpty(b []byte) bool = len(b) == 0 ==> b == nil
 //@ spec DepositOK(d *DepositData) bool = len(d.AssetKey) <= MaximumEncodingInt && len(d.Transaction) <= MaximumEncodingInt && IntegerEnc(d.Amount)
 //@ spec MintOK(m *MintData) bool = len(m.Group) <= MaximumEncodingInt && IntegerEnc(m.Amount)
-//@ spec InputOK(in *Input) bool = in != nil && in.Index <= InputIndexLimit && len(in.Genesis) <= MaximumEncodingInt && NilIfEmpty(in.Genesis) &&
+//@ -- InputEncOK: everything InputOK says except the index bound, which EncodeInput must ENFORCE itself on the untruncated value (panics when).
+//@ spec InputEncOK(in *Input) bool = in != nil && len(in.Genesis) <= MaximumEncodingInt && NilIfEmpty(in.Genesis) &&
 //@       (in.Deposit != nil ==> DepositOK(in.Deposit)) && (in.Mint != nil ==> MintOK(in.Mint))
+//@ spec InputOK(in *Input) bool = in != nil && in.Index <= InputIndexLimit && InputEncOK(in)
 //@ spec WithdrawalOK(w *WithdrawalData) bool = len(w.Address) <= MaximumEncodingInt && len(w.Tag) <= MaximumEncodingInt
 //@ spec KeysOK(ks []*crypto.Key) bool = len(ks) <= SliceCountLimit && forall k int :: 0 <= k && k < len(ks) ==> ks[k] != nil
 //@ spec OutputOK(o *Output) bool = o != nil && IntegerEnc(o.Amount) && KeysOK(o.Keys) && len(o.Script) <= MaximumEncodingInt && NilIfEmpty(o.Script) &&
@@ -60,6 +62,10 @@ package common
 //@   modifies *dec.buf
 //@   ensures [len] Len(dec) == old(Len(dec)) && Pos(dec) <= Len(dec)
 //@   ensures [ok] err == nil ==> IntegerEnc(result0)
+//@   -- value level: the result is the big-endian value of the il bytes that follow the 2-byte length field il -- ANY length is accepted, leading
+//@   -- zero bytes included (the decoder alone is not injective; WriteInteger writes only the minimal form; see the lemmas below)
+//@   ensures [local-value] err == nil ==> val(result0) == BigValOf(Win(dec, old(Pos(dec)) + 2, Be16Dec(Win(dec, old(Pos(dec)), 2))))
+//@   ensures [content] Content(dec) == old(Content(dec))
 
 //@ func (dec *Decoder) ReadInput
 //@   property C06
@@ -149,6 +155,7 @@ package common
 //@   modifies enc.buf, enc.buf[*]
 //@   ensures [ownbuf] arr(enc.buf) == old(arr(enc.buf)) || fresh(enc.buf)
 //@   ensures len(enc.buf) == old(len(enc.buf)) + len(b)
+//@   ensures [bytes] seq(enc.buf) == cat(old(seq(enc.buf)), old(seq(b)))
 
 //@ func (enc *Encoder) WriteByte
 //@   property C06
@@ -163,6 +170,7 @@ package common
 //@   modifies enc.buf, enc.buf[*]
 //@   ensures [ownbuf] arr(enc.buf) == old(arr(enc.buf)) || fresh(enc.buf)
 //@   ensures len(enc.buf) == old(len(enc.buf)) + 2
+//@   ensures [bytes] seq(enc.buf) == cat(old(seq(enc.buf)), Be16(d))
 
 //@ func (enc *Encoder) WriteInt
 //@   property C06, C08
@@ -171,6 +179,7 @@ package common
 //@   modifies enc.buf, enc.buf[*]
 //@   ensures [ownbuf] arr(enc.buf) == old(arr(enc.buf)) || fresh(enc.buf)
 //@   ensures len(enc.buf) == old(len(enc.buf)) + 2
+//@   ensures [bytes] d >= 0 ==> seq(enc.buf) == cat(old(seq(enc.buf)), Be16(d))   -- d as a mathematical integer (a negative d would be narrowed)
 
 //@ func (enc *Encoder) WriteUint32
 //@   property C06
@@ -178,6 +187,7 @@ package common
 //@   modifies enc.buf, enc.buf[*]
 //@   ensures [ownbuf] arr(enc.buf) == old(arr(enc.buf)) || fresh(enc.buf)
 //@   ensures len(enc.buf) == old(len(enc.buf)) + 4
+//@   ensures [bytes] seq(enc.buf) == cat(old(seq(enc.buf)), Be32(d))
 
 //@ func (enc *Encoder) WriteUint64
 //@   property C06, C08
@@ -185,6 +195,7 @@ package common
 //@   modifies enc.buf, enc.buf[*]
 //@   ensures [ownbuf] arr(enc.buf) == old(arr(enc.buf)) || fresh(enc.buf)
 //@   ensures len(enc.buf) == old(len(enc.buf)) + 8
+//@   ensures [bytes] seq(enc.buf) == cat(old(seq(enc.buf)), Be64Of(d))
 
 //@ func (enc *Encoder) WriteInteger
 //@   property C06
@@ -192,10 +203,27 @@ package common
 //@   modifies enc.buf, enc.buf[*]
 //@   ensures [ownbuf] arr(enc.buf) == old(arr(enc.buf)) || fresh(enc.buf)
 //@   ensures len(enc.buf) == old(len(enc.buf)) + 2 + bytelen(val(d))
+//@   -- canonical (minimal) form: the length field is bytelen(val(d)), followed by exactly that many magnitude bytes
+//@   hint after WriteInt [length-field] seq(enc.buf) == cat(old(seq(enc.buf)), Be16(bytelen(val(d))))
+//@   ensures [magnitude] seq(enc.buf[old(len(enc.buf)) + 2 : len(enc.buf)]) == BigBytesOf(val(d), bytelen(val(d)))
 
+//@ -- Exact encoded lengths: every field of an input / output contributes its bytes (a dropped or duplicated field changes the length).
+//@ spec DepositLen(d *DepositData) mathint = 2 + 32 + 2 + len(d.AssetKey) + 2 + len(d.Transaction) + 8 + 2 + bytelen(val(d.Amount))
+//@ spec MintLen(m *MintData) mathint = 2 + 2 + len(m.Group) + 8 + 2 + bytelen(val(m.Amount))
+//@ spec InputLen(in *Input) mathint = 32 + 2 + 2 + len(in.Genesis) + (in.Deposit == nil ? 2 : DepositLen(in.Deposit)) + (in.Mint == nil ? 2 : MintLen(in.Mint))
+//@ spec WithdrawalLen(w *WithdrawalData) mathint = 2 + 2 + len(w.Address) + 2 + len(w.Tag)
+//@ spec OutputLen(o *Output) mathint = 2 + 2 + bytelen(val(o.Amount)) + 2 + 32 * len(o.Keys) + 32 + 2 + len(o.Script) + (o.Withdrawal == nil ? 2 : WithdrawalLen(o.Withdrawal))
+
+//@ -- Injectivity of the index field: the guard is EXACT on the mathematical value of in.Index (a uint): EncodeInput returns only for
+//@ -- in.Index <= InputIndexLimit (panic-iff) and panics only above it (panic-spec), so no index >= 65536 can be narrowed into an accepted
+//@ -- 16-bit field (k and k + 65536*m never share an encoding). Callers must prove the bound (EncodeTransaction: from DecodedTx).
 //@ func (enc *Encoder) EncodeInput
 //@   property C06
-//@   requires enc != nil && InputOK(in)
+//@   requires enc != nil && InputEncOK(in)
+//@   panics when in.Index > InputIndexLimit
+//@   -- WHICH value is written: after the index field the buffer is old ++ Hash ++ Be16(in.Index), in.Index being the mathematical value of the uint
+//@   ensures [length] len(enc.buf) == old(len(enc.buf)) + InputLen(in)
+//@   hint after WriteUint16 [index-field] seq(enc.buf) == cat(cat(old(seq(enc.buf)), old(seq(in.Hash))), Be16(in.Index))
 //@   modifies enc.buf, enc.buf[*]
 //@   ensures [ownbuf] arr(enc.buf) == old(arr(enc.buf)) || fresh(enc.buf)
 
@@ -205,6 +233,9 @@ package common
 //@   modifies enc.buf, enc.buf[*]
 //@   ensures [ownbuf] arr(enc.buf) == old(arr(enc.buf)) || fresh(enc.buf)
 //@   loop 0 invariant enc != nil && OutputOK(o) && (arr(enc.buf) == old(arr(enc.buf)) || fresh(enc.buf))
+//@   ensures [length] len(enc.buf) == old(len(enc.buf)) + OutputLen(o)
+//@   loop 0 invariant [length] len(enc.buf) == old(len(enc.buf)) + 2 + 2 + bytelen(val(o.Amount)) + 2 + 32 * (rangeindex + 1)
+//@   loop 0 invariant [globals] len(null) == 2 && len(magic) == 2   -- the cells of the package variables share the []byte component the loop writes
 
 //@ -- EncodeSignatures is NOT verified (assumption): its body needs "a range over a map runs len(m) times" (index ss[off]) and
 //@ -- sort.Slice over a slice of structs, both outside the engine's model. Its precondition is discharged at the call site.
@@ -227,10 +258,52 @@ package common
 //@   modifies enc.buf, enc.buf[*]
 //@   ensures [ownbuf] arr(enc.buf) == old(arr(enc.buf)) || fresh(enc.buf)
 //@   ensures result == enc.buf
+//@   -- DEFINITION of TxBody/TxSigs (assumed): started on an empty buffer, the bytes produced are cat(TxBody(payload fields), TxSigs(signature fields)),
+//@   -- evaluated in the state at the return. Holds because the body is deterministic, writes the signature section last, and reads only
+//@   -- memory reachable from signed -- provided the encoder's spare capacity is not such memory: the only two callers
+//@   -- (marshalWithCapacity, payloadMarshal) pass an encoder they have just allocated.
+//@   assumes [def-TxBytes] old(len(enc.buf)) == 0 ==> seq(result) == TxBytes(signed)
 //@   loop 0 invariant enc != nil && DecodedTx(signed) && (arr(enc.buf) == old(arr(enc.buf)) || fresh(enc.buf))
 //@   loop 1 invariant enc != nil && DecodedTx(signed) && (arr(enc.buf) == old(arr(enc.buf)) || fresh(enc.buf))
 //@   loop 2 invariant enc != nil && DecodedTx(signed) && (arr(enc.buf) == old(arr(enc.buf)) || fresh(enc.buf))
 //@   loop 3 invariant enc != nil && DecodedTx(signed) && (arr(enc.buf) == old(arr(enc.buf)) || fresh(enc.buf))
+
+// ───────────── byte level: WHAT the encoder produces (TxBody / TxSigs / MarshalBytes / PayloadBytes) ─────────────
+// Byte strings are abstract values (seq / cat, README "T-BYTES"). The encoding of a transaction is the concatenation of
+//   TxBody(version, asset, inputs, outputs, references, extra)  -- the payload part: a function of the six payload FIELD VALUES and of the
+//                                                                  memory reachable from a Transaction (`reads reach(Transaction)`), nothing else
+//   TxSigs(signature maps, aggregated signature)                -- the authorisation part, written last by EncodeTransaction
+// Both are uninterpreted: they are DEFINED by what (*Encoder).EncodeTransaction appends to an empty buffer ([def-TxBytes] below, the one
+// assumed clause of this layer). Everything else is proved from it: marshalWithCapacity/marshal/Marshal return MarshalBytes(ver),
+// payloadMarshal returns PayloadBytes(ver) = cat(TxBody(payload fields), TxSigs(nil, nil)), which mentions no authorisation field, and
+// unmarshalVersionedTransaction accepts val only if MarshalBytes(result) == seq(val).
+//@ uninterp TxBody(version uint8, asset crypto.Hash, inputs []*Input, outputs []*Output, refs []crypto.Hash, extra []byte) mathint reads reach(Transaction)
+//@ uninterp TxSigs(sigs []map[uint16]*crypto.Signature, agg *AggregatedSignature) mathint reads reach(SignedTransaction)
+//@ spec TxBytes(tx *SignedTransaction) mathint = cat(TxBody(tx.Version, tx.Asset, tx.Inputs, tx.Outputs, tx.References, tx.Extra), TxSigs(tx.SignaturesMap, tx.AggregatedSignature))
+//@ spec MarshalBytes(ver *VersionedTransaction) mathint = TxBytes(&ver.SignedTransaction)
+//@ spec PayloadBytes(ver *VersionedTransaction) mathint = cat(TxBody(ver.Version, ver.Asset, ver.Inputs, ver.Outputs, ver.References, ver.Extra), TxSigs(nil, nil))
+
+// ───────────── primitive pairs: encode -> decode round trip (value level) ─────────────
+//@ -- If the decoded content at position p is what WriteUint16(d) / WriteInt(d) appended (Be16(d)), ReadUint16 / ReadInt return d:
+//@ -- their [value] clause says Be16(result) == Win(p, 2), and Be16 is injective on 16-bit values.
+//@ lemma U16RoundTrip(d mathint, r mathint)
+//@   property C06
+//@   requires 0 <= d && d < 65536 && 0 <= r && r < 65536 && Be16(r) == Be16(d)
+//@   ensures r == d
+//@ -- WriteInteger(v) appends Be16(bytelen(v)) ++ BigBytesOf(v, bytelen(v)) ([length-field], [magnitude]); ReadInteger's [local-value] formula
+//@ -- applied to a content c that holds these bytes at p yields v.
+//@ lemma IntegerRoundTrip(v mathint, c mathint, p mathint)
+//@   property C06
+//@   requires 0 <= v && bytelen(v) >= 0 && bytelen(v) <= MaximumEncodingInt
+//@   requires bytes.rdwin(c, p, 2) == Be16(bytelen(v)) && bytes.rdwin(c, p + 2, bytelen(v)) == BigBytesOf(v, bytelen(v))
+//@   ensures BigValOf(bytes.rdwin(c, p + 2, Be16Dec(bytes.rdwin(c, p, 2)))) == v
+//@ -- ...but so does every zero-padded form (n > bytelen(v)): the decoder alone maps several byte strings to one Integer. This is exactly
+//@ -- why acceptance needs the canonical re-encoding comparison of unmarshalVersionedTransaction ([canonical-bytes]).
+//@ lemma IntegerPaddedDecodesToo(v mathint, n mathint, c mathint, p mathint)
+//@   property C06
+//@   requires 0 <= v && bytelen(v) <= n && n <= MaximumEncodingInt && 0 <= n
+//@   requires bytes.rdwin(c, p, 2) == Be16(n) && bytes.rdwin(c, p + 2, n) == BigBytesOf(v, n)
+//@   ensures BigValOf(bytes.rdwin(c, p + 2, Be16Dec(bytes.rdwin(c, p, 2)))) == v
 
 // ───────────── version.go ─────────────
 
@@ -239,11 +312,16 @@ package common
 //@   property C06
 //@   requires ver != nil && capacity >= 0 && DecodedTx(&ver.SignedTransaction)
 //@   modifies nothing
+//@   -- the frame is CHECKED: in particular no byte of the cached payload encoding ver.pmbytes[..cap] is written (the result is a new buffer)
+//@   ensures [bytes] seq(result) == MarshalBytes(ver)
+//@   ensures [fresh] cap(result) == 0 || fresh(result)
 
 //@ func (ver *VersionedTransaction) marshal
 //@   property C06
 //@   requires ver != nil && DecodedTx(&ver.SignedTransaction)
 //@   modifies nothing
+//@   ensures [bytes] seq(result) == MarshalBytes(ver)
+//@   ensures [fresh] cap(result) == 0 || fresh(result)
 
 //@ -- Root of (a),(b),(d): NO precondition - total on every byte string.
 //@ -- [canonical] is checked at every return: on the accepting path the bytes produced by ver.marshalWithCapacity(len(val)) for the
@@ -255,10 +333,13 @@ package common
 //@   ensures [size] err == nil ==> len(val) <= config.TransactionMaximumSize
 //@   ensures [reject] err != nil ==> result0 == nil
 //@   hint return [canonical] err == nil ==> result0 == ver && bytes.Equal(canonical, val)
+//@   -- the property statement, heap level: the accepted byte string IS the re-encoding of the returned transaction (in the returned state)
+//@   ensures [canonical-bytes] err == nil ==> MarshalBytes(result0) == seq(val)
 
 //@ func UnmarshalVersionedTransaction
 //@   property C06
 //@   modifies nothing
+//@   ensures [canonical-bytes] err == nil ==> MarshalBytes(result0) == seq(val)
 //@   ensures [decoded] err == nil ==> result0 != nil && fresh(result0) && DecodedTx(&result0.SignedTransaction)
 //@   ensures [size] err == nil ==> len(val) <= config.TransactionMaximumSize
 //@   -- added for C23 (storage cache), ASSUMED: the decoded object remembers the byte string it was decoded from. TxSrc(ver) is a function of the
@@ -273,6 +354,9 @@ package common
 //@   property C06
 //@   requires ver != nil && TxPayloadOK(&ver.SignedTransaction.Transaction)
 //@   modifies nothing
+//@   -- the hashed bytes are a function of the payload fields only: PayloadBytes mentions neither ver.SignaturesMap nor ver.AggregatedSignature
+//@   ensures [payload-only] seq(result) == PayloadBytes(ver)
+//@   ensures [fresh] cap(result) == 0 || fresh(result)
 //@   hint after EncodeTransaction [nosigs] signed != nil && fresh(signed) && signed.SignaturesMap == nil && signed.AggregatedSignature == nil
 //@   hint after EncodeTransaction [payload] signed.Version == ver.Version && signed.Asset == ver.Asset && signed.Inputs == ver.Inputs && signed.Outputs == ver.Outputs &&
 //@       signed.References == ver.References && signed.Extra == ver.Extra
@@ -285,6 +369,8 @@ package common
 //@   requires ver != nil && DecodedTx(&ver.SignedTransaction)
 //@   maypanic
 //@   modifies nothing
+//@   -- the frame is CHECKED (no `noframe`): Marshal writes no pre-existing cell, in particular not the cached payload bytes ver.pmbytes[..cap]
+//@   ensures [bytes] seq(result) == MarshalBytes(ver)
 //@   -- C31's size abstraction: MLenOf(ver) names len(ver.Marshal()); with config.Debug == true (a constant of this tree) Marshal
 //@   -- re-decodes its output and panics when it exceeds config.TransactionMaximumSize. Assumed, not verified against the body.
 //@   assumes len(result) == MLenOf(ver) && 0 < len(result) && len(result) <= config.TransactionMaximumSize && fresh(result)
@@ -298,6 +384,8 @@ package common
 //@   maypanic
 //@   modifies ver.pmbytes
 //@   ensures [cached] result == ver.pmbytes && (old(len(ver.pmbytes)) > 0 ==> result == old(ver.pmbytes))
+//@   -- a payload encoding computed by this call is PayloadBytes of the entry state: a function of the payload fields only
+//@   ensures [payload-only] old(len(ver.pmbytes)) == 0 ==> seq(result) == old(PayloadBytes(ver))
 //@   ensures [auth-untouched] ver.SignaturesMap == old(ver.SignaturesMap) && ver.AggregatedSignature == old(ver.AggregatedSignature)
 //@   ensures [payload-untouched] TxPayloadOK(&ver.SignedTransaction.Transaction)
 
@@ -310,6 +398,15 @@ package common
 //@   maypanic
 //@   modifies ver.pmbytes, ver.hash
 //@   ensures [cached] result == ver.hash && (old(ver.hash.HasValue()) ==> result == old(ver.hash) && ver.pmbytes == old(ver.pmbytes))
+//@   -- C02: "the payload hash of the transaction ver points to" as a function of the object (PayloadHashOf, zz_contracts_c02_verif.go): every call returns
+//@   -- the same value because the payload fields are never written after decoding (the cache ver.hash exists for exactly that reason). ASSUMED.
+//@   assumes [c02-payload-hash] result == PayloadHashOf(ver)
+//@   -- content addressing: a hash computed by this call (nothing cached) is Blake3 of PayloadBytes: no authorisation field enters it
+//@   ensures [hash-of-payload] !old(ver.hash.HasValue()) && old(len(ver.pmbytes)) == 0 ==> result == crypto.Blake3Of(old(PayloadBytes(ver)))
+//@   ensures [hash-of-cache] !old(ver.hash.HasValue()) && old(len(ver.pmbytes)) > 0 ==> result == crypto.Blake3Of(old(seq(ver.pmbytes)))
 //@   -- added for C23, ASSUMED: a Blake3 digest is never the all-zero string (the code itself uses the zero hash as "not cached yet")
 //@   assumes [nonzero] result.HasValue()
 //@   ensures [auth-untouched] ver.SignaturesMap == old(ver.SignaturesMap) && ver.AggregatedSignature == old(ver.AggregatedSignature)
+//@   -- C15/C17: the digest is never the all-zero hash (probability 2^-256 for Blake3): with [cached] this makes repeated calls on an
+//@   -- object return the same value. ASSUMED (cryptographic), not verified against the body.
+//@   assumes [nonzero] result.HasValue()
